@@ -498,6 +498,14 @@ func init() {
 			"percent-strings": {"type": "string", "enum": []any{"50%off", "10%off", "none", "100%", "%s"}},
 			"percent-mixed":   {"enum": []any{"5% flat", 5, nil}},
 			"hostile-strings": {"type": "string", "enum": []any{"a\"b", "back\\slash", "new\nline", "tab\there", "日本", "it's", "{{x}}", "$1"}},
+			// string members that differ ONLY in characters of another script: decimal digits of other scripts (full-width,
+			// Persian, Devanagari — legal in Go identifiers), letters of several scripts: one constant per member, all distinct
+			// (members that collide after capitalisation, like ǆ / ǅ, are the listed finding K5-enum-constant-collision)
+			"digits-fullwidth":  {"type": "string", "enum": []any{"レベル１", "レベル２", "レベル３"}},
+			"digits-persian":    {"enum": []any{"مرحله۱", "مرحله۲"}},
+			"digits-devanagari": {"type": "string", "enum": []any{"स्तर१", "स्तर२", "स्तर१०"}},
+			"digits-mixed":      {"type": "string", "enum": []any{"v1", "v１", "v۱", "v2"}},
+			"letters-scripts":   {"type": "string", "enum": []any{"άλφα", "βήτα", "альфа", "бета", "ალფა"}},
 			// typed integer enums that also state bounds (the carrier type is chosen from type AND bounds)
 			"typed-integer-bounded":    {"type": "integer", "enum": []any{1, 2, 3}, "minimum": 0, "maximum": 10},
 			"typed-integer-big-max":    {"type": "integer", "enum": []any{1073741824, 4294967296, 8589934592}, "maximum": 8589934592},
@@ -508,7 +516,7 @@ func init() {
 		}
 		probes := []any{"red", "green", "x y", "blue", "a", "only", "", "RED", 1, 2, 3, 10, -1, 0, 1.5, 2.5, 3.25, true, false, nil, []any{}, M{}, []any{"red"}, "b", "l", "m",
 			"true", "false", "1", "2", "auto", "<nil>", "null", "1.5", "x", "y", "50%off", "10%off", "none", "100%", "%s", "50%!o(MISSING)ff", "5% flat",
-			"a\"b", "back\\slash", "new\nline", "tab\there", "日本", "it's", "{{x}}", "$1", "new", 1073741824, 4294967296, 8589934592, -8589934592, 5, 4}
+			"a\"b", "back\\slash", "new\nline", "tab\there", "日本", "it's", "{{x}}", "$1", "new", "レベル１", "レベル２", "レベル1", "مرحله۱", "مرحله۲", "स्तर१", "स्तर१०", "v1", "v１", "v۱", "v2", "άλφα", "альфа", "ალფა", "ǆ", "ǅ", "ß", "ẞ", "ı", "İ", "i", 1073741824, 4294967296, 8589934592, -8589934592, 5, 4}
 		var pcs []*core.PCase
 		for _, name := range core.SortedKeys(shapes) {
 			sh := shapes[name]
@@ -569,6 +577,16 @@ func init() {
 			d := r.DocJSON[i]
 			return strings.Contains(d, "null") && r.Case.Labels[0] != "mixed-null"
 		})
+		// an enum the generator accepts must give a program that compiles (one constant per string member, all distinct),
+		// unless the model predicts a listed non-compiling class
+		for _, r := range res {
+			if r.Real.ErrKind == "" && r.Real.Panic == "" && r.CompileErr != "" && len(r.ModelIssues) == 0 {
+				fails++
+				if fails <= 3 {
+					c.Fail("oracle", "the generator accepts the enum ("+r.Case.Labels[0]+", "+r.Case.Labels[1]+") but the program does not compile: "+clip(r.CompileErr, 200), replayOf(r, -1, nil), false)
+				}
+			}
+		}
 		// marshal round trip + constants
 		for _, r := range res {
 			if r.RunsJ == nil {
